@@ -22,7 +22,8 @@ KINDS = ["D", "E", "C", "B", "F", "X", "G"]     # directive, odd directive, comm
 
 def render(kinds, rng=None):
     out = []
-    nf = nd = 0
+    nf = nd = nc = 0
+    comments = ["#comment", "#", "#!genome-build GRCh38", "#!", "# #", "#\t", "# ##not a directive", "#!!doubled", "#>x", "#FASTA"]
     odd = ["###", "##", "## spaced out", "###!x", "##gff-version 3", "##FASTA-index genome.fa.fai", "##FASTAfile x", "##FASTA "]
     for k in kinds:
         if k == "D":
@@ -32,7 +33,8 @@ def render(kinds, rng=None):
             nd += 1
             out.append(odd[nd % len(odd)])
         elif k == "C":
-            out.append("#comment" if nd % 2 else "#")
+            nc += 1
+            out.append(comments[(nc + nd + nf) % len(comments)])
         elif k == "B":
             out.append("")
         elif k == "F":
